@@ -86,6 +86,8 @@ class SymEval:
         self.overrides = {}       # did -> Value (used when opening callees: parameters)
         self.this_val = None
         self.nonneg_names = set(nonneg)
+        self.havoc_epoch = None
+        self.havoc_n = 0
 
     # ---- atoms ---------------------------------------------------------------------------------
     def sym(self, name):
@@ -101,8 +103,71 @@ class SymEval:
         if is_scalar_type(ct) or ct in self.p.macros:
             if path in self.store:
                 return self.store[path]
-            return self.sym(path)
+            ep = 0
+            if self.havoc_epoch and self._mutable_leaf(path):
+                ep = self.havoc_epoch.get(path_root(path), 0)
+            return self.sym(path + ("@%d" % ep if ep else ""))
         return Lazy(path, ct)
+
+    def _mutable_leaf(self, path):
+        """Only storage that the analysed function may write at all is affected by a havoc."""
+        if getattr(self, "_mut_fields", None) is None:
+            m = set()
+            root = self.root_fn if getattr(self, "root_fn", None) else self.fn
+            for n in walk(root["body"]):
+                k = n.get("k")
+                t = None
+                if k in ("BinaryOperator", "CompoundAssignOperator") and (n.get("op") == "=" or k == "CompoundAssignOperator"):
+                    t = n["c"][0]
+                elif k == "UnaryOperator" and n.get("op") in ("++", "--"):
+                    t = n["c"][0]
+                elif k == "CXXOperatorCallExpr" and n.get("op") in ("=", "+=", "-=", "*=", "/=") and len(n.get("c", [])) >= 2:
+                    t = n["c"][1]
+                elif k == "CXXMemberCallExpr" and not n.get("cconst"):
+                    t = call_obj(n)
+                if t is not None:
+                    for x in walk(t):
+                        if x.get("k") == "MemberExpr" and x["ref"].get("dk") == "Field":
+                            m.add(x["ref"]["name"])
+            self._mut_fields = m
+        comps = re.split(r"[.\[\]()]", path)
+        return any(c in self._mut_fields for c in comps)
+
+    def havoc(self, stmt):
+        """A statement the engine does not execute (loop, branch): every local it assigns and every
+        stored path becomes a fresh unknown."""
+        self._var_decl(0)
+        for n in walk(stmt):
+            k = n.get("k")
+            t = None
+            if k in ("BinaryOperator", "CompoundAssignOperator") and (n.get("op") == "=" or k == "CompoundAssignOperator"):
+                t = n["c"][0]
+            elif k == "UnaryOperator" and n.get("op") in ("++", "--"):
+                t = n["c"][0]
+            elif k == "CXXOperatorCallExpr" and n.get("op") in ("=", "+=", "-=", "*=", "/=") and len(n.get("c", [])) >= 2:
+                t = n["c"][1]
+            if t is not None:
+                b = strip(t)
+                if b.get("k") == "DeclRefExpr":
+                    did = b["ref"]["did"]
+                    self.havoc_n += 1
+                    v = self.obj("%s#%s~%d" % (b["ref"]["name"], did, self.havoc_n), b.get("t", ""))
+                    self.memo[did] = v
+                    self.overrides[did] = v
+        self.havoc_n += 1
+        for path in list(self.store):
+            del self.store[path]
+        self.global_epoch = self.havoc_n
+        self.havoc_epoch = _AllEpoch(self.havoc_n)
+
+    def open_method(self, qn, this_val, argvals=()):
+        fns = self.p.fns(qn)
+        if len(fns) != 1 or not self.openable(fns[0]):
+            raise Decline("%s cannot be opened" % qn)
+        sub = self.open(fns[0], list(argvals), this_val)
+        r = sub.exec_block(fns[0]["body"].get("c", []))
+        self.assumptions += sub.assumptions
+        return r
 
     def field(self, v, fname, ftype):
         if isinstance(v, Rec):
@@ -132,6 +197,8 @@ class SymEval:
             for r in roots:
                 for n in walk(r):
                     if n.get("k") in ("Var", "Decomposition") and "did" in n:
+                        if n["did"] in self._decls:
+                            continue   # range-for variable already registered with its loop
                         self._decls[n["did"]] = n
                         for i, b in enumerate(n.get("bindings", [])):
                             self._decls[b["did"]] = ("binding", n, i)
@@ -189,7 +256,15 @@ class SymEval:
             self.memo[did] = v
             return v
         if isinstance(d, tuple) and d[0] == "rangevar":
-            v = self.obj(name, t)
+            # element of the iterated container: keeps the owner's path visible ("c1.node_lst_[*n1]")
+            try:
+                rng = self.ev(d[1]["range"])
+            except Decline:
+                rng = None
+            if isinstance(rng, Lazy):
+                v = self.obj("%s[*%s]" % (rng.path, ref["name"]), t)
+            else:
+                v = self.obj(name, t)
             self.memo[did] = v
             return v
         single = ("const" in (d.get("t") or "").split("<")[0]) or d.get("t", "").endswith("&") or did not in self._writes
@@ -534,6 +609,10 @@ class SymEval:
         sub = SymEval(self.p, callee)
         sub.atoms = self.atoms
         sub.store = self.store
+        sub.havoc_epoch = self.havoc_epoch
+        sub.havoc_n = self.havoc_n
+        sub.root_fn = getattr(self, "root_fn", None) or self.fn
+        sub._mut_fields = getattr(self, "_mut_fields", None)
         sub.this_val = this_val
         sub.depth = self.depth
         for p, v in zip(callee.get("params", []), argvals):
@@ -748,6 +827,22 @@ class SymEval:
         if not any(is_call(x) or x.get("k") in ("CompoundAssignOperator",) or (x.get("k") in ("BinaryOperator",) and x.get("op") == "=") or (x.get("k") == "UnaryOperator" and x.get("op") in ("++", "--")) for x in walk(e)):
             return None   # expression statement without side effects (e.g. assert under NDEBUG)
         raise Decline("statement kind %s" % (ek or k))
+
+
+class _AllEpoch(dict):
+    def __init__(self, n):
+        super().__init__()
+        self.n = n
+
+    def get(self, k, d=None):
+        return self.n
+
+    def __bool__(self):
+        return True
+
+
+def path_root(path):
+    return path.split(".")[0]
 
 
 def is_int(e):
